@@ -114,7 +114,7 @@ func native(j *NativeJob) (res *NativeResult) {
 		return res
 	}
 	res.Stage = "run"
-	rctx, rcancel := context.WithTimeout(context.Background(), 60*time.Second)
+	rctx, rcancel := context.WithTimeout(context.Background(), 20*time.Second)
 	defer rcancel()
 	run := exec.CommandContext(rctx, filepath.Join(dir, "prog"))
 	run.Dir = dir
@@ -136,6 +136,50 @@ func native(j *NativeJob) (res *NativeResult) {
 	}
 	res.Stage = "ok"
 	return res
+}
+
+// tagsOf names the features of a program that recorded backend defects are keyed by.
+func tagsOf(p M) string {
+	seen := map[string]bool{}
+	var walk func(v any)
+	walk = func(v any) {
+		switch x := v.(type) {
+		case M:
+			switch x["k"] {
+			case "lam":
+				seen["closure_literal"] = true
+			case "callc":
+				seen["closure_call"] = true
+			}
+			for _, e := range x {
+				walk(e)
+			}
+		case L:
+			for _, e := range x {
+				walk(e)
+			}
+		}
+	}
+	walk(p["defs"])
+	d := fmt.Sprint(p["desc"])
+	if strings.Contains(d, "fornum") && strings.Contains(d, "exit=continue") {
+		seen["fornum_continue"] = true
+	}
+	var out []string
+	for _, t := range []string{"closure_literal", "closure_call", "fornum_continue"} {
+		if seen[t] {
+			out = append(out, t)
+		}
+	}
+	return strings.Join(out, " ")
+}
+
+func tagsOfBatch(b []M) string {
+	var t []string
+	for _, p := range b {
+		t = append(t, tagsOf(p))
+	}
+	return strings.Join(t, " ")
 }
 
 func descs(b []M) string {
@@ -308,15 +352,15 @@ func run(c *core.Ctx) error {
 			continue
 		case "format", "build":
 			// "the generated Go source compiles" is part of the property
-			rec := map[string]any{"kind": "generated_go_does_not_compile", "stage": nr.Stage, "detail": nr.Detail, "source": srcs[bi], "desc": descs(b),
+			rec := map[string]any{"kind": "generated_go_does_not_compile", "stage": nr.Stage, "detail": nr.Detail, "source": srcs[bi], "desc": descs(b), "tags": tagsOfBatch(b),
 				"summary": fmt.Sprintf("the Go backend accepted the program but its output does not compile (%s): %s", nr.Stage, firstLines(nr.Detail, 4))}
 			c.Violation(rec)
 			continue
 		case "build_timeout":
 			return core.Inconclusivef("native %s", nr.Stage)
 		case "run_timeout":
-			rec := map[string]any{"kind": "native_hangs", "source": srcs[bi], "desc": descs(b), "vm": vr.Stdout, "native": nr.Stdout,
-				"summary": fmt.Sprintf("the native binary does not terminate (60 s) where the VM does: %s", descs(b))}
+			rec := map[string]any{"kind": "native_hangs", "source": srcs[bi], "desc": descs(b), "tags": tagsOfBatch(b), "vm": vr.Stdout, "native": nr.Stdout,
+				"summary": fmt.Sprintf("the native binary does not terminate (20 s) where the VM does: %s", descs(b))}
 			c.Violation(rec)
 			continue
 		}
@@ -324,7 +368,7 @@ func run(c *core.Ctx) error {
 			pid := p["id"].(int)
 			obs := mr.Obs[pid]
 			want := obs.Lines()
-			rec := map[string]any{"desc": p["desc"], "program": p, "source": EmitBatchPlain([]M{p}), "predicted": want,
+			rec := map[string]any{"desc": p["desc"], "tags": tagsOf(p), "program": p, "source": EmitBatchPlain([]M{p}), "predicted": want,
 				"vm": vmLines[pid], "native": natLines[pid], "native_exit": nr.ExitCode, "native_stderr": nr.Stderr}
 			dv := Diff(want, vmLines[pid])
 			dn := Diff(vmLines[pid], natLines[pid])
@@ -345,7 +389,7 @@ func run(c *core.Ctx) error {
 			}
 		}
 		if (nr.ExitCode != 0) != (vr.ErrClass != "" || vr.GoPanic != "") {
-			rec := map[string]any{"kind": "exit_status_differs", "source": srcs[bi], "native_exit": nr.ExitCode, "vm_error": vr.ErrClass + " " + vr.ErrMsg,
+			rec := map[string]any{"kind": "exit_status_differs", "source": srcs[bi], "desc": descs(b), "tags": tagsOfBatch(b), "native_exit": nr.ExitCode, "native_stderr": nr.Stderr, "vm_error": vr.ErrClass + " " + vr.ErrMsg,
 				"summary": fmt.Sprintf("batch %d: native exit status %d, VM error %q", bi, nr.ExitCode, vr.ErrClass)}
 			c.Violation(rec)
 		}
